@@ -6,6 +6,7 @@ import itertools
 from sa import AnalysisError
 from sa.kinds import (key, utext, call_name, recv_text, calls_in, node_calls, canon_compare, oriented)
 from sa.cfg import walk_calls, walk_nodes
+from sa.astutil import canon_text as CT
 
 EXPLANATION = (
     "Decided part of C05: (R1) provenance and orientation of every fill: a fill's price is either the order's "
@@ -206,13 +207,13 @@ def run(ctx, rep):
         atoms = [utext(n.exprs[0]) for n in cfgp.live_nodes() if n.kind == "cond" and
                  ("is_fill_or_kill_order", True) in [(utext(g.exprs[0]), pol) for g, pol in cfgp.guards(n.id)]
                  and best in utext(n.exprs[0])]
-        through = "price > %s" % best if side == "BACK" else "price < %s" % best
-        rep.check(through in atoms and "price == %s" % best in atoms, "R2",
+        through = CT("price > %s" % best if side == "BACK" else "price < %s" % best)
+        rep.check(through in atoms and CT("price == %s" % best) in atoms, "R2",
                   key(pl, None, "%s fill-or-kill: behind the best price nothing is matched, at it the level must hold the minimum fill" % side),
                   pl, None, str(atoms))
-    mf = [n for n in cfgp.live_nodes() if n.kind == "cond" and utext(n.exprs[0]) == "available_size >= min_fill_size"]
+    mf = [n for n in cfgp.live_nodes() if n.kind == "cond" and utext(n.exprs[0]) == CT("available_size >= min_fill_size")]
     rep.check(len(mf) == 2, "R2", key(pl, None, "at the best price the level must hold at least the minimum fill"), pl)
-    rb = [n for n in cfgv.live_nodes() if n.kind == "cond" and utext(n.exprs[0]) == "self.size_matched < min_fill_size"]
+    rb = [n for n in cfgv.live_nodes() if n.kind == "cond" and utext(n.exprs[0]) == CT("self.size_matched < min_fill_size")]
     good = len(rb) == 1 and not cfgv.guards(rb[0].id)
     if good:
         t = [m for l, m in rb[0].succ if l == "T"][0]
